@@ -140,6 +140,19 @@ def obligations(tier: str):
                     continue
                 add("feasible", f"tree_{dec}_{fxn}_m+{d}", fixture=fxn, rep="tree", decider=dec, delta=d)
             add("infeasible", f"tree_{dec}_{fxn}_m-1", fixture=fxn, rep="tree", decider=dec)
+    # tuple fields with abstract members (containers are transparent for depth)
+    for dec in ("grow", "full", "pi"):
+        for d in (0, 1, 2) if T else (0, 1):
+            add("feasible", f"tree_{dec}_f7tuple_m+{d}", fixture="f7", grammar_fn="grammar_tuple", rep="tree", decider=dec, delta=d)
+    add("feasible", "tree_grow_f7_m+1", fixture="f7", rep="tree", decider="grow", delta=1)
+    add("feasible", "dsge_f7tuple_m+1", fixture="f7", grammar_fn="grammar_tuple", rep="dsge", decider="grow", delta=1, gene_length=2)
+    add("feasible", "ge_f7tuple_m+1", fixture="f7", grammar_fn="grammar_tuple", rep="ge", decider="grow", delta=1, gene_length=6)
+    # generated hierarchies
+    from vf.fixtures import family
+
+    for k in family.interesting(3, 300, every=16 if T else 60):
+        for d in (0, 1):
+            add("feasible", f"tree_grow_family{k}_m+{d}", fixture="family", index=k, rep="tree", decider="grow", delta=d)
     for rep in ("ge", "sge", "dsge"):
         gl = 6 if rep == "ge" else 2
         for fxn in ("f1", "f3") + (("f4",) if T else ()):
